@@ -31,7 +31,44 @@ JOBSYNC_TRUSTED = [
     "deletes of one sweep run in goroutines: their API order is canonicalised to ascending Pod name on both sides; a delete fault fails every delete of the pass",
 ]
 
+QUEUE_RULE = "queue: one JobConfig (maxConcurrency unset/1/2/3, changed on the fly), owned Jobs with every start policy (none, empty, Allow, Forbid, Enqueue), startAfter on the lattice around the clock, independent Jobs; ops: create, finish (job controller writes a terminal phase), delete, clock, cache advance, store-listener and wake-up deliveries in arbitrary lag, faults on StartJob/RejectJob, restarts (Store.Recover), real PerConfigReconciler/IndependentReconciler passes; driven to quiescence; non-trivial = at least one start/reject; distinct by (seed, case, #actions)"
+QUEUE_TRUSTED = [
+    "the job controller is an environment op in this world (a Job becomes terminal); terminal phases and startTime are permanent (C11)",
+    "a pass is atomic with respect to listener deliveries (no interleaving between the counter read and CheckAndAdd)",
+    "the API-server simulation (resourceVersion conflicts on StartJob/RejectJob) of harness/sim_api.go",
+]
+
 PROPS = {
+    "C05": {
+        "props_file": "Props/C05.v",
+        "theorems": ["c05_pass_bound", "c05_no_double_increment", "c05_release_on_finish", "c05_release_on_delete", "c05_store_steps", "c05_rollback", "c05_recover"],
+        "families": [{"name": "queue", "n_quick": 300, "n_thorough": 8000}],
+        "rule": QUEUE_RULE,
+        "trusted": QUEUE_TRUSTED,
+        "assumptions": ["partial: the history invariant 'counter >= number of really active Jobs' (Phi = counter + pending store deltas = active Jobs in the API) is argued in DESIGN.md section 7 C05 and judged by the monitor on every history; it is not yet a Coq theorem", "a start write that is applied but reported as failed (timeout after apply) is not generated (F8 hypothesis, unconfirmed)"],
+        "level_text": "Theorems: every start of a Forbid/Enqueue Job by a pass is admitted at counter value a' with a'+1 <= maxConcurrency (snapshot = counter by CheckAndAdd); the store never counts the start twice, releases exactly once on finish/delete; rollback on a failed write; recount on restart. Model = whole PerConfigReconciler pass + Store + listeners, tied to the real code by the queue stream (lagging cache/listeners, faults, restarts); the bound against the API truth is judged by the monitor at every start.",
+        "level_note": "Partial: the counter-over-approximation invariant over histories is checked by the monitor, not proved. Passes are atomic w.r.t. listener deliveries in the model (CAS failure branch not exercised).",
+    },
+    "C06": {
+        "props_file": "Props/C06.v",
+        "theorems": ["c06_reject_only_forbid_at_limit", "c06_enqueue_never_refused", "c06_at_limit", "c06_allow_starts_regardless", "c06_fifo_monotone"],
+        "families": [{"name": "queue", "n_quick": 300, "n_thorough": 8000}],
+        "rule": QUEUE_RULE,
+        "trusted": QUEUE_TRUSTED,
+        "assumptions": ["equal creation seconds among queued Jobs are not generated (sort.Slice is unstable; ties are unordered in the code)", "a refused Job whose AdmissionError phase has not been written yet is still listed as queued and may get a startTime when capacity frees; it never gets a task (C08 gate) - observation, not judged"],
+        "level_text": "Decision theorems for all inputs (refusal only for Forbid at the limit, Enqueue never refused and skipped at the limit, Allow/nil always start), FIFO monotonicity inside a pass; order of starts among Enqueue Jobs, refusals, and 'nothing startable left queued at quiescence' judged by the monitor on histories of the real reconciler.",
+        "level_note": "Trusted: as C05.",
+    },
+    "C07": {
+        "props_file": "Props/C07.v",
+        "theorems": ["c07_never_before", "c07_pass_never_before", "c07_independent_never_before", "c07_armed_when_waiting", "c07_independent_immediate"],
+        "families": [{"name": "queue", "n_quick": 300, "n_thorough": 8000}],
+        "rule": QUEUE_RULE,
+        "trusted": QUEUE_TRUSTED,
+        "assumptions": ["'eventually' is 'at quiescence' (no real-time bound): judged by the monitor after driving the history to quiescence with the clock past every startAfter"],
+        "level_text": "Theorems: a start decision implies clock >= startAfter for both reconcilers; a not-yet-due independent Job arms a re-sync; a due independent Job is started by the pass that sees it. Eventual start judged at quiescence by the monitor.",
+        "level_note": "Trusted: as C05.",
+    },
     "C08": {
         "props_file": "Props/C08.v",
         "theorems": ["c08_creates_are_requests", "c08_request_sound", "c08_no_request_for_live_or_succeeded", "c08_gate", "c08_gate_means", "c08_stop_when_complete"],
